@@ -482,7 +482,7 @@ theorem processNode_post (tr : Heap → Nat → Bool) (mm : Nat → List MetaAtt
       exact processNode_post tr mm k s v s' hi h
     | k :: k2 :: rest, h =>
       simp only [processNode] at h
-      exact processFirstNT_post tr mm (k :: k2 :: rest) s v s' hi h
+      exact processFirstNT_post tr mm _ (k :: k2 :: rest) s v s' hi h
   | .nt (.obj cls) ks, s, v, s', hi, h => by
     simp only [processNode, St.next] at h
     have hi1 := hi.alloc (o := newObj mm cls ks) rfl (contIdsL_init _)
@@ -576,17 +576,17 @@ theorem processKids_post (tr : Heap → Nat → Bool) (mm : Nat → List MetaAtt
       have ih := processNode_post tr mm k s val s1 hi hk
       exact ih.1.trans (processKids_post tr mm ks s1 s' ih.1.inv h)
 
-theorem processFirstNT_post (tr : Heap → Nat → Bool) (mm : Nat → List MetaAttr) : (ks : List PT) → ∀ (s : St) (v : Val) (s' : St),
-    Inv s → processFirstNT tr mm ks s = some (v, s') → Step s s' ∧ ∀ c, v = .obj c → Fresh s s' c
+theorem processFirstNT_post (tr : Heap → Nat → Bool) (mm : Nat → List MetaAttr) (fb : Bool) : (ks : List PT) → ∀ (s : St) (v : Val) (s' : St),
+    Inv s → processFirstNT tr mm fb ks s = some (v, s') → Step s s' ∧ ∀ c, v = .obj c → Fresh s s' c
   | [], s, v, s', hi, h => by
     simp only [processFirstNT, Option.some.injEq, Prod.mk.injEq] at h
     obtain ⟨rfl, rfl⟩ := h
     exact ⟨Step.refl hi, fun c hc => by cases hc⟩
   | k :: ks, s, v, s', hi, h => by
     simp only [processFirstNT] at h
-    by_cases ht : k.isTerm = true
+    by_cases ht : (k.isTerm || k.isMatchNT) = true
     · simp only [ht, if_true] at h
-      exact processFirstNT_post tr mm ks s v s' hi h
+      exact processFirstNT_post tr mm fb ks s v s' hi h
     · simp only [ht, Bool.false_eq_true, if_false] at h
       exact processNode_post tr mm k s v s' hi h
 
